@@ -15,3 +15,4 @@ import DafRel.Props.C14
 #print axioms DafRel.Props.C14.apply_with_options_wellformed
 #print axioms DafRel.Props.C14.join_with_backtracking_wellformed
 #print axioms DafRel.Props.C14.processed_trees_wellformed
+#print axioms DafRel.Props.C14.bridge_join_begin_apply
